@@ -64,8 +64,8 @@ def int_range(dtype):
 PINF = z3.Real("__pinf")
 NINF = z3.Real("__ninf")
 NAN = z3.Real("__nan")
-INPUT_BOUND = 2 ** 100
-SPECIAL_AXIOMS = [PINF > 2 ** 101, NINF < -(2 ** 101)]
+INPUT_BOUND = 2 ** 16  # |x| <= 65536: keeps squares/cubes of inputs inside float32 range (stated bound)
+SPECIAL_AXIOMS = [PINF > 2 ** 120, NINF < -(2 ** 120)]
 _used_specials = set()
 
 
